@@ -87,6 +87,10 @@ func failingStatements(r *core.Rng) (stmts []ast.Node, where string) {
 		for k := r.Range(0, 2); k > 0; k-- {
 			ss = append(ss, ast.Assign{Name: []string{"ga", "gb", "gc"}[r.Intn(3)], Value: []ast.Node{il(int64(r.Intn(100))), ast.StrLit{V: "kept"}, ast.ArrayLit{Elems: []ast.Node{il(1), ast.StrLit{V: "k"}}}}[r.Intn(3)]})
 		}
+		if r.Chance(1, 3) {
+			// a function whose body holds data-segment constants, bound inside the statement that is going to fail
+			ss = append(ss, ast.Assign{Name: "zkeep", Value: ast.FuncLit{Params: []string{"n"}, Body: ast.ArrayLit{Elems: []ast.Node{nm("n"), ast.StrLit{V: fmt.Sprintf("const-%d", r.Intn(100))}, ast.FloatLit{V: 2.5}, ast.StrLit{V: "second"}}}}})
+		}
 		return ss
 	}
 	blk := func(ss ...ast.Node) ast.Node {
@@ -95,7 +99,22 @@ func failingStatements(r *core.Rng) (stmts []ast.Node, where string) {
 		}
 		return ast.Block{Stmts: ss}
 	}
-	switch r.Intn(11) {
+	switch r.Intn(12) {
+	case 11:
+		where = "generator-dropped-while-its-closure-is-kept"
+		k := int64(r.Range(1, 2))
+		stmts = []ast.Node{
+			ast.Assign{Name: "zcg", Value: ast.FuncLit{Params: []string{"a"}, Body: ast.Block{Stmts: []ast.Node{
+				ast.Assign{Name: "x", Value: ast.Binary{Op: "*", L: nm("a"), R: il(7)}},
+				ast.Yield{X: ast.FuncLit{Body: nm("x")}},
+				ast.Assign{Name: "x", Value: ast.Binary{Op: "+", L: nm("x"), R: il(1)}},
+				ast.Yield{X: ast.FuncLit{Body: ast.Binary{Op: "+", L: nm("x"), R: il(100)}}},
+				ast.Yield{X: ast.FuncLit{Body: il(0)}}}}}},
+			ast.Assign{Name: "gi", Value: il(0)},
+			ast.For{Vars: []string{"gh"}, Iters: []ast.Node{icall("zcg", il(int64(r.Range(2, 9))))}, Body: ast.Block{Stmts: []ast.Node{
+				ast.Assign{Name: "gfn", Value: nm("gh")},
+				ast.Assign{Name: "gi", Value: ast.Binary{Op: "+", L: nm("gi"), R: il(1)}},
+				ast.If{Cond: ast.Binary{Op: ">", L: nm("gi"), R: il(k)}, Then: f}}}}}
 	case 0:
 		where = "top-level"
 		stmts = []ast.Node{blk(append(pre(), ast.Assign{Name: "gz", Value: f})...)}
@@ -182,11 +201,27 @@ func suffixProbes(r *core.Rng) []ast.Node {
 			ast.Binary{Op: "+", L: icall("h"), R: nm("x")}}}}},
 		icall("zgrow", il(int64(r.Range(1, 9))), il(int64(r.Range(300, 700)))),
 		icall("zgrow", il(int64(r.Range(1, 9))), il(int64(r.Range(900, 1600)))),
+		ast.Assign{Name: "zfresh", Value: ast.ArrayLit{Elems: []ast.Node{ast.StrLit{V: fmt.Sprintf("fresh-%d", r.Intn(100))}, ast.FloatLit{V: 7.25}, ast.StrLit{V: "later"}}}},
+		icall("zkeep", il(int64(r.Intn(9)))),
+		ast.For{Vars: []string{"zi"}, Iters: []ast.Node{icall("zkgen", il(int64(r.Range(20, 60))))}, Body: nm("zi")},
+		ast.If{Cond: ast.Binary{Op: "==", L: toa(nm("gfn")), R: ast.StrLit{V: "function"}}, Then: icall("gfn"), Else: il(0)},
 		ast.ArrayLit{Elems: []ast.Node{toa(nm("ga")), toa(nm("gb")), toa(nm("gc")), toa(nm("gw")), toa(nm("gz")), toa(nm("gi"))}},
 	}
 }
 
 var ptrRe = regexp.MustCompile(`0x[0-9a-f]+`)
+
+// diffTail returns a from shortly before the first position where it differs from b.
+func diffTail(a, b string) string {
+	i := 0
+	for i < len(a) && i < len(b) && a[i] == b[i] {
+		i++
+	}
+	if i > 80 {
+		return "..." + a[i-80:]
+	}
+	return a
+}
 
 type sufObs struct {
 	V         val.Value
@@ -202,6 +237,10 @@ func c08Case(ctx *core.Ctx, idx int) core.Result {
 	g := gen.New(r, o)
 	// ga..gc and the probe names always exist so that the final snapshot never renders nil
 	prefix := []ast.Node{ast.Assign{Name: "ga", Value: il(1)}, ast.Assign{Name: "gb", Value: il(2)}, ast.Assign{Name: "gc", Value: il(3)}, ast.Assign{Name: "gw", Value: il(4)}, ast.Assign{Name: "gz", Value: il(5)}, ast.Assign{Name: "gi", Value: il(6)}}
+	prefix = append(prefix, ast.Assign{Name: "gfn", Value: il(0)},
+		ast.Assign{Name: "zkeep", Value: ast.FuncLit{Params: []string{"n"}, Body: ast.ArrayLit{Elems: []ast.Node{nm("n"), ast.StrLit{V: "base"}}}}},
+		ast.Assign{Name: "zkrec", Value: ast.FuncLit{Params: []string{"q"}, Body: ast.If{Cond: ast.Binary{Op: "<=", L: nm("q"), R: il(0)}, Then: il(0), Else: ast.Binary{Op: "+", L: il(1), R: icall("zkrec", ast.Binary{Op: "-", L: nm("q"), R: il(1)})}}}},
+		ast.Assign{Name: "zkgen", Value: ast.FuncLit{Params: []string{"q"}, Body: ast.Block{Stmts: []ast.Node{icall("zkrec", nm("q")), ast.Yield{X: nm("q")}, icall("zkrec", nm("q"))}}}})
 	prefix = append(prefix, g.Session(r.Range(0, 3))...)
 	fstmts, where := failingStatements(r)
 	parseErr := ""
@@ -260,7 +299,8 @@ func c08Case(ctx *core.Ctx, idx int) core.Result {
 		}
 		gstmts = append(gstmts, ast.Assign{Name: k, Value: lit})
 	}
-	// helper function definitions inside F never fail: B replays them as they are
+	// helper function definitions inside F never fail: B replays them as they are (also the ones that
+	// sit in front of the fault inside a failing block)
 	var helperDefs []ast.Node
 	for _, st := range fstmts {
 		if a, ok := st.(ast.Assign); ok {
@@ -268,6 +308,23 @@ func c08Case(ctx *core.Ctx, idx int) core.Result {
 				helperDefs = append(helperDefs, st)
 			}
 		}
+		if b, ok := st.(ast.Block); ok {
+			for _, bs := range b.Stmts {
+				if a, ok := bs.(ast.Assign); ok && a.Name == "zkeep" {
+					helperDefs = append(helperDefs, bs)
+				}
+			}
+		}
+	}
+	// a closure F left in gfn: the twin gets a constant function with the value the reference says the closure returns
+	if v, ok := ref.Globals["gfn"]; ok && v.K == val.Fun {
+		w := ref.Exec(icall("gfn"))
+		lit, okl := literalOf(w.Value)
+		if w.Err != "" || w.Ambiguous != "" || !okl {
+			res.Verdict, res.Reason = core.Dropped, "the kept closure has no literal value"
+			return res
+		}
+		helperDefs = append(helperDefs, ast.Assign{Name: "gfn", Value: ast.FuncLit{Body: lit}})
 	}
 	wantSuffix := make([]rs.Result, len(suffix))
 	for i, st := range suffix {
@@ -278,6 +335,15 @@ func c08Case(ctx *core.Ctx, idx int) core.Result {
 		}
 	}
 
+	// what the REPL/file loop prints for the failing part and the suffix, rebuilt from session A's observations
+	var expectA strings.Builder
+	note := func(ob calcrun.StmtObs) {
+		expectA.WriteString(ob.Out)
+		expectA.WriteString(ob.Report)
+		if doOut && ob.Err == "" {
+			expectA.WriteString("> " + val.Display(ob.Value) + "\n")
+		}
+	}
 	run := func(mid []ast.Node, midText string, checkF bool) ([]sufObs, string) {
 		calcrun.SetStdin(stdin)
 		ses := calcrun.NewSession()
@@ -326,6 +392,9 @@ func c08Case(ctx *core.Ctx, idx int) core.Result {
 			if bad != "" {
 				return nil, "failing statement " + bad
 			}
+			if checkF {
+				note(ob)
+			}
 			if checkF && ob.Err != "" {
 				a := ob.After
 				if a.Residue() != [4]int{0, 0, 0, 0} || a.MainIP != a.CS {
@@ -341,6 +410,9 @@ func c08Case(ctx *core.Ctx, idx int) core.Result {
 			}
 			if ob.After.Residue() != ob.Before.Residue() && ob.Err == "" {
 				return nil, fmt.Sprintf("suffix statement %q leaves residue %v -> %v", trunc(ast.Print(st, nil), 200), ob.Before.Residue(), ob.After.Residue())
+			}
+			if checkF {
+				note(ob)
 			}
 			out = append(out, sufObs{ob.Value, ob.Out, ob.Err})
 		}
@@ -452,6 +524,19 @@ func c08Case(ctx *core.Ctx, idx int) core.Result {
 			o1, g1, bad1 = feed(texts)
 			oN, gN, badN = feed(grouped)
 		}
+		// the loop's own statement handling against the statement-by-statement execution of session A
+		if oA, gA, badA := feed(texts); badA != "" {
+			res.Verdict = core.Violated
+			res.Viol = &core.Violation{Monitor: "session-survives", Detail: "through processInput: " + badA, Input: in}
+			return res
+		} else if want := ptrRe.ReplaceAllString(expectA.String(), "PTR"); oA != want {
+			res.Verdict = core.Violated
+			res.Viol = &core.Violation{Monitor: "repl-loop", Detail: fmt.Sprintf("the failing part and the suffix entered through the REPL/file loop (processInput) print %q; executed statement by statement they print %q", trunc(diffTail(oA, want), 500), trunc(diffTail(want, oA), 500)), Input: in}
+			return res
+		} else {
+			_ = gA
+			res.Add("repl_loop_sessions_compared", 1)
+		}
 		switch {
 		case !sameParse:
 		case bad1 != "" || badN != "":
@@ -487,6 +572,6 @@ func init() {
 		Families: []core.Family{
 			{Name: "twin", Count: countFn(10000, 300000), Run: c08Case},
 		},
-		Floors: []core.Floor{{Key: "suffix_statements_compared", Quick: 20000, Thor: 2000000}, {Key: "failures_injected", Quick: 2500, Thor: 250000}, {Key: "parse_errors_injected", Quick: 150, Thor: 15000}, {Key: "grouped_inputs_compared", Quick: 2000, Thor: 200000}, {Key: "tag:failure-at:", Quick: 11, Thor: 11}, {Key: "tag:err:", Quick: 7, Thor: 7}},
+		Floors: []core.Floor{{Key: "suffix_statements_compared", Quick: 20000, Thor: 2000000}, {Key: "failures_injected", Quick: 2500, Thor: 250000}, {Key: "parse_errors_injected", Quick: 150, Thor: 15000}, {Key: "grouped_inputs_compared", Quick: 2000, Thor: 200000}, {Key: "repl_loop_sessions_compared", Quick: 2000, Thor: 200000}, {Key: "tag:failure-at:", Quick: 12, Thor: 12}, {Key: "tag:err:", Quick: 7, Thor: 7}},
 	})
 }
